@@ -33,7 +33,7 @@ type Op struct {
 	Key int           `json:"key,omitempty"` // key index; -1 foreign key
 	T   int           `json:"t,omitempty"`   // target (S, R) or stranger (X)
 	N   int           `json:"n,omitempty"`   // payload size
-	Mod string        `json:"mod,omitempty"` // S: "" | flip | trunc-salt | trunc-tag | badtype | truncaddr | private | loopback | cgnat | cgnat-mapped | ula | broadcast | empty-domain | domain | nxdomain | empty | raw:<dst>
+	Mod string        `json:"mod,omitempty"` // S: "" | flip | trunc-salt | trunc-tag | badtype | truncaddr | private | loopback | cgnat | cgnat-mapped | ula | broadcast | empty-domain | domain | nxdomain | empty | raw-wire | raw:<dst>
 	D   time.Duration `json:"d,omitempty"`   // A; sub-operations of P: delay before acting
 	Par []Op          `json:"par,omitempty"` // P: operations issued concurrently by separate threads
 	Raw []byte        `json:"raw,omitempty"` // S: the whole authenticated plaintext (address header included)
@@ -366,6 +366,9 @@ func Run(cfg Config, ops []Op, tr *Trace) {
 				wire = wire[:key.K.SaltSize()-1]
 			case "trunc-tag":
 				wire = wire[:key.K.SaltSize()+15]
+			case "raw-wire":
+				// the datagram itself is N arbitrary bytes (N may be 0: an empty datagram)
+				wire = Payload(op.C+3, i, op.N)
 			}
 			st.Sent, st.Plain, st.Dst = wire, payload, dst
 			sock := w.Sock(Clients[op.C])
